@@ -168,7 +168,7 @@ fn cases(tier: Tier) -> Vec<Case> {
             } else {
                 // 32-bit storage of the 24-bit raw types
                 let chunk = 1u64 << 20;
-                let highs: Vec<u64> = if tier.is_thorough() { (0..256).collect() } else { vec![0x00, 0xFF, 0xA5] };
+                let highs: Vec<u64> = if tier.is_thorough() { (0..256).collect() } else { vec![0x00, 0xFF, 0xA5, 0x5A, 0x01, 0x80] };
                 for h in highs {
                     let mut s = 0u64;
                     while s < (1 << 24) {
